@@ -560,6 +560,8 @@ def run(prog, rep):
 RENAME_LOCALS = ['src/psemaphore-posix.c']
 
 SELFTEST = [
+    dict(id="sysv-clean-keeps-ownership-flag", file="src/psemaphore-sysv.c", expect="C06.5",
+         old="\tsem->file_created = FALSE;\n\tsem->sem_created  = FALSE;", new="\tsem->file_created = FALSE;"),
     dict(id="init-val-field-sixteen-bits", file="src/psemaphore-posix.c", expect="C06.4",
          old="\tpint\t\t\tinit_val;", new="\tpushort\t\t\tinit_val;"),
     dict(id="key-file-not-exclusive", file="src/pipc.c", expect="C06.5",
